@@ -6,6 +6,7 @@ its branches (guard exits, asserts), at every enclosing block level up to the fu
 from __future__ import annotations
 
 import ast
+import re
 
 from . import norm
 from .norm import Lit
@@ -124,6 +125,40 @@ def handler_types(h: ast.ExceptHandler) -> list[str]:
     return [ast.unparse(e) for e in elts]
 
 
+_outer_from = [0]
+_WORD = re.compile(r"[A-Za-z_][A-Za-z0-9_]*(?:\.[A-Za-z_][A-Za-z0-9_]*)*")
+
+
+def _stores(loop) -> set[str]:
+    """Names and attribute chains (`self._x`) assigned anywhere in the loop (its test excluded): plain, augmented, for-targets, walrus."""
+    out: set[str] = set()
+    for st in loop.body + loop.orelse:
+        for x in ast.walk(st):
+            if isinstance(x, (ast.FunctionDef, ast.AsyncFunctionDef, ast.Lambda)):
+                continue
+            if isinstance(x, (ast.Name, ast.Attribute)) and isinstance(getattr(x, "ctx", None), (ast.Store, ast.Del)):
+                try:
+                    out.add(ast.unparse(x))
+                except Exception:
+                    pass
+            elif isinstance(x, ast.AugAssign):
+                out.add(ast.unparse(x.target))
+    return out
+
+
+def _mentions(text: str, names: set[str]) -> bool:
+    for m in _WORD.finditer(text):
+        w = m.group(0)
+        if w in names:
+            return True
+        # `self._x.y` mentions `self._x`
+        parts = w.split(".")
+        for k in range(len(parts) - 1, 0, -1):
+            if ".".join(parts[:k]) in names:
+                return True
+    return False
+
+
 def pc(node, stop=None, raw: bool = False) -> list[frozenset]:
     """CNF path condition of `node` (a statement or expression) inside its function.
     raw=True: literals as written (no substitution of single-definition locals)."""
@@ -149,6 +184,13 @@ def pc(node, stop=None, raw: bool = False) -> list[frozenset]:
             elif n is par.orelse:
                 clauses += _cnf(par.test, False, node)
         n = par
+    killed: set[str] = set()  # names / attribute chains assigned inside a loop that was left on the way up
+
+    def _alive(cs):
+        if not killed:
+            return cs
+        return [c for c in cs if not any(_mentions(l.text, killed) for l in c)]
+
     while n is not None and not isinstance(n, (ast.FunctionDef, ast.AsyncFunctionDef, ast.Module, ast.ClassDef, ast.Lambda)):
         if n is stop:
             break
@@ -157,16 +199,23 @@ def pc(node, stop=None, raw: bool = False) -> list[frozenset]:
         if blk is not None and isinstance(n, ast.stmt):
             i = blk.index(n)
             for sib in blk[:i]:
-                clauses += fallthrough(sib, node)
+                clauses += _alive(fallthrough(sib, node))
         field = getattr(n, "pfield", None)
+        if isinstance(parent, (ast.While, ast.For, ast.AsyncFor)) and field in ("body",):
+            # a test made before the loop says nothing, in a later iteration, about what the loop body assigns
+            own = len(clauses)
+            killed |= _stores(parent)
+            _outer_from[0] = own
         if isinstance(parent, ast.If):
             if field == "body":
-                clauses += _cnf(parent.test, True, node)
+                clauses += _alive(_cnf(parent.test, True, node))
             elif field == "orelse":
-                clauses += _cnf(parent.test, False, node)
+                clauses += _alive(_cnf(parent.test, False, node))
         elif isinstance(parent, ast.While):
             if field == "body":
-                clauses += _cnf(parent.test, True, node)
+                # the loop's own test is evaluated at the start of each iteration; outer loops' tests are subject to the same invalidation
+                inner_kill = killed - _stores(parent)
+                clauses += [c for c in _cnf(parent.test, True, node) if not any(_mentions(l.text, inner_kill) for l in c)]
         elif isinstance(parent, ast.ExceptHandler):
             clauses.append(frozenset([Lit("EXCEPT(" + ", ".join(handler_types(parent)) + ")", True)]))
         elif isinstance(parent, ast.Try) and field == "orelse":
